@@ -22,6 +22,8 @@ pub enum Step {
     BackupCrash(BackupParamsLite, u32, u32),
     Delete(Vec<u32>, bool),
     Gc,
+    /// the newest complete version's BANDTAIL is rewritten to the form conserve < 0.6.4 wrote (no hunk count)
+    LegacyTail,
 }
 
 #[derive(Clone, Debug)]
@@ -47,6 +49,7 @@ pub fn step_json(s: &Step) -> Value {
         Step::BackupCrash(p, a, b) => json!({"backup_crash": p.json(), "at": format!("{a}/{b}")}),
         Step::Delete(b, dry) => json!({"delete": b, "dry_run": dry}),
         Step::Gc => json!("gc"),
+        Step::LegacyTail => json!("newest-complete-version-gets-a-pre-0.6.4-tail"),
     }
 }
 
@@ -223,11 +226,36 @@ pub fn gen_history(rng: &mut Rng, max_steps: usize, go: &GenOpts, with_crash: bo
                 }
                 steps.push(Step::Delete(d, rng.chance(1, 5)));
             }
-            9 if with_delete => steps.push(Step::Gc),
+            9 if with_delete => {
+                // archives live long: sometimes the newest complete version is one written before 0.6.4
+                if rng.chance(1, 3) {
+                    steps.push(Step::LegacyTail);
+                }
+                steps.push(Step::Gc)
+            }
             _ => {}
         }
     }
     steps
+}
+
+/// Rewrite the BANDTAIL of the newest band that has a decodable one to `{"end_time":N}` (what conserve
+/// 0.6.0–0.6.3 wrote: no `index_hunk_count`).  Returns that band.
+pub fn legacy_tail(arch: &Path) -> Option<u32> {
+    let mut bands: Vec<u32> = fs::read_dir(arch).ok()?.flatten().filter_map(|e| { let n = e.file_name().to_string_lossy().to_string(); if n.len() >= 5 && n.starts_with('b') { n[1..].parse().ok() } else { None } }).collect();
+    bands.sort();
+    for b in bands.into_iter().rev() {
+        let p = arch.join(band_name(b)).join("BANDTAIL");
+        if let Ok(bytes) = fs::read(&p) {
+            if let Ok(v) = serde_json::from_slice::<serde_json::Value>(&bytes) {
+                if let Some(t) = v.get("end_time") {
+                    fs::write(&p, format!("{{\"end_time\":{t}}}\n")).unwrap();
+                    return Some(b);
+                }
+            }
+        }
+    }
+    None
 }
 
 pub fn copy_dir(from: &Path, to: &Path) {
@@ -405,6 +433,13 @@ pub fn run_history(steps: &[Step], o: &HistOpts, report: &mut Report, case_id: &
                     }
                 }
                 rec.real = Some(r);
+            }
+            Step::LegacyTail => {
+                rec.kind = "legacy-tail";
+                if let Some(b) = legacy_tail(&arch) {
+                    run.session.push(format!("put {}/BANDTAIL tail:-", band_name(b)));
+                    report.hit("legacy-tail-applied");
+                }
             }
             Step::Gc => {
                 rec.kind = "gc";
